@@ -862,7 +862,8 @@ def atom_key(fn, a):
     if a[0] == 'b':
         return a[1], a[2]
     l, op, r = a[1], a[2], a[3]
-    lk, rk = fn.key(l), fn.key(r)
+    lk = fn.key(l)
+    rk = ('#%d' % r[1]) if isinstance(r, tuple) else fn.key(r)
     if lk.startswith('#') and not rk.startswith('#'):
         lk, rk, op = rk, lk, CMP_MIRROR[op]
     if op == '!=':
@@ -994,13 +995,19 @@ class Explorer(object):
                 for kk, pp in vd.items():
                     if pp and kk.startswith('(%s == #' % sk) and kk != k:
                         return None
-                return [[('b', k, True, blk.cond)]]
-            if lab and lab.get('kind') == 'default':
-                for s2 in blk.succs:
-                    l2 = fn.blocks[s2].label if s2 is not None else None
-                    if l2 and l2.get('kind') == 'case' and vd.get('(%s == #%d)' % (sk, l2.get('v', -1))) is True:
+                return [[('cmp', blk.cond, '==', ('const', lab['v']), True)]]
+            # default label or no label at all (switch without default falls through to the statement after it):
+            # the operand differs from every case value
+            labels = []
+            for s2 in blk.succs:
+                l2 = fn.blocks[s2].label if s2 is not None else None
+                if l2 and l2.get('kind') == 'case' and 'v' in l2:
+                    if vd.get('(%s == #%d)' % (sk, l2['v'])) is True:
                         return None
-            return [[]]
+                    labels.append(l2['v'])
+            labels = sorted(set(labels))
+            conj = [('cmp', blk.cond, '!=', ('const', v), True) for v in labels + labels[::-1]]
+            return [conj]
         if blk.cond is None or len(blk.succs) != 2:
             return [[]]
         c = fn.effective_cond(b)
